@@ -383,9 +383,9 @@ func c02(c *ctx) {
 	}
 	if r.Anchor(sigCache != nil, "crypto.SignatureCache") {
 		allowed := map[string]string{
-			"lib/crypto.CheckCache":                   "single-key cache helper: key = (public key bytes, message, signature)",
+			"lib/crypto.CheckCache":                 "single-key cache helper: key = (public key bytes, message, signature)",
 			"(*lib/crypto.BatchVerifier).verifyAll": "batch verifier: key = BatchTuple.Key() of a single public key",
-			"lib/crypto.init":                         "creation of the cache",
+			"lib/crypto.init":                       "creation of the cache",
 		}
 		n := 0
 		for _, f := range c.p.Funcs {
